@@ -44,10 +44,46 @@ REQUIRED = ["invocations_judged", "runs_judged", "feasibility_judged", "binding_
 BUDGET_S = {"quick": 270, "thorough": 3300}
 
 
+def _corpus(rng):
+    """Tight shared feeders with mixed continuous / finite-rate stations and uninterrupted charging: the head-room left to one
+    station is below another station's minimum pilot; every sort order and both algorithms, sessions in both arrival orders."""
+    out = []
+    av = {"t": "FR", "rates": [0] + list(range(6, 33))}
+    cc = {"t": "FR", "rates": [0, 8, 16, 24, 32]}
+    ev = {"t": "EVSE", "max": 32, "min": 0}
+    for lim in (10.37, 13.37, 21.37, 30.37):
+        for layout in ([ev, av], [av, ev], [ev, cc, av], [cc, av], [ev, ev, av]):
+            for flip in (False, True):
+                stations = [{"id": f"s{i}", "evse": e, "voltage": rng.choice([208, 240]), "phase": rng.choice([0, 0, 30])}
+                            for i, e in enumerate(layout)]
+                if stations[0]["phase"] != stations[-1]["phase"]:
+                    for s_ in stations:
+                        s_["phase"] = 0
+                net = {"stations": stations, "constraints": [{"name": "feeder", "coeffs": {s_["id"]: 1 for s_ in stations}, "limit": lim}],
+                       "tol": None}
+                order = list(range(len(stations)))
+                if flip:
+                    order.reverse()
+                sessions = []
+                for k, i in enumerate(order):
+                    a = k  # distinct arrivals; later arrivals depart earlier when flipped
+                    dep = 14 - 2 * k if flip else 9 + 2 * k
+                    sessions.append({"id": f"x{k}", "station": f"s{i}", "arrival": a, "departure": dep, "requested": rng.choice([4, 9, 30]),
+                                     "est_dep": dep + rng.choice([0, 0, 2]),
+                                     "battery": {"t": "ideal", "cap": 100, "init": 0, "maxp": 20}})
+                for sort in gen.SORTS:
+                    for algo in ("greedy", "rr"):
+                        out.append({"period": 5, "start": [2020, 3, 1, 8, 0], "network": net, "sessions": sessions, "recompute": [],
+                                    "scheduler": {"kind": "sorted", "algo": algo, "sort": sort, "est": rng.choice([None, None, "fixed"]),
+                                                  "unint": True, "inc": rng.choice([0.5, 1]), "seed": rng.randrange(1 << 20)},
+                                    "np_seed": 1})
+    return [{"desc": d, "corpus": True} for d in out]
+
+
 def cases(seed, tier):
     rng = random.Random(f"C07:{seed}")
     n = 420 if tier == "quick" else 18000
-    out = []
+    out = _corpus(random.Random(f"C07c:{seed}"))
     for i in range(n):
         d = gen.scenario(rng, sched="sorted", kinds=("EVSE", "FR"), noise_p=0.2, constraint_free_p=0.08, nmax=7, sess_max=9,
                          sid_style="other_station", bind=rng.random() < 0.8, bkinds=("ideal", "l2c", "l2c", "l2s"),
